@@ -180,8 +180,11 @@ func vMatchJSON(rec string, want vMsg) string {
 	if err := dec.Decode(&r); err != nil {
 		return "not decodable: " + err.Error()
 	}
-	if dec.More() {
-		return "more than one JSON value in the record"
+	// nothing but white space may follow the value (Decoder.More does not report a stray closing
+	// brace or bracket, so the rest of the record is inspected byte by byte)
+	rest, _ := io.ReadAll(io.MultiReader(dec.Buffered(), strings.NewReader("")))
+	if t := strings.TrimSpace(string(rest)); t != "" {
+		return fmt.Sprintf("bytes after the JSON value in the record: %q", t)
 	}
 	switch want.kind {
 	case "connect":
@@ -567,6 +570,7 @@ func (c *vC32Conn) finish() (records int) {
 // ---- two connections writing concurrently ------------------------------------------------------
 
 // vC32Two: two connections of one kind on one node; thread A and thread B each send two messages
+// (then two publications to the channel both hold, whose encoding the hub shares between them)
 // (distinct payloads, equal and unequal lengths) to their own connection while the scheduler
 // explores every interleaving of the two write paths within the bound, including a preemption
 // inside ResponseWriter.Write (a slow peer). Oracle: the per-connection oracle of finish() on both
@@ -611,6 +615,21 @@ func vC32Two(kind string) func() {
 		}
 		for _, pl := range p.b {
 			cb.sent = append(cb.sent, vMsg{kind: "message", payload: pl})
+		}
+		// one publication to the channel both connections hold: the hub encodes it once and hands the
+		// same bytes to both transports, so whatever one connection's framing does to them must not
+		// show on the other (payloads with a raw CR / LF as JSON whitespace, binary for Protobuf)
+		shared := [][]byte{[]byte("{\"s\":\r1}"), []byte("{\"s\":\r\n[1,\r2]}")}
+		if kind == "stream-pb" {
+			shared = [][]byte{{0x0d, 0x0a, 0x00, 0xff}, bytes.Repeat([]byte{0x0d}, 140)}
+		}
+		for _, sp := range shared {
+			if _, err := n.Publish("ch", sp); err != nil {
+				panic(fmt.Sprintf("verif: Publish: %v", err))
+			}
+			vsched.WaitIdle()
+			ca.sent = append(ca.sent, vMsg{kind: "pub", payload: sp})
+			cb.sent = append(cb.sent, vMsg{kind: "pub", payload: sp})
 		}
 		na := ca.finish()
 		nb := cb.finish()
